@@ -349,7 +349,12 @@ func (h *Hist) OpTime(d time.Duration) {
 
 // AfterRotations checks every rotation observed since the last call and
 // applies it to the model.
-func (h *Hist) AfterRotations() {
+func (h *Hist) AfterRotations() { h.applyRotations(true) }
+
+// applyRotations checks the observed rotations and applies them to the model;
+// with check=false the final model comparison is left to the caller (an
+// operation may be half-way through its own model update).
+func (h *Hist) applyRotations(check bool) {
 	n := h.N
 	for _, c := range h.Rots {
 		if !c.post {
@@ -389,6 +394,7 @@ func (h *Hist) AfterRotations() {
 		// The archived record: exactly the devices authorized and not banned
 		// at rotation time, values and rates of the first half.
 		week := len(n.Model.Weeks)
+		h.W.Logf("rotation observed: offset %d at now=%d, week %d", c.offset, c.slotNow, week)
 		n.Model.Rotate()
 		ads, ok := n.S.VerifHistoryWeek(week)
 		if !ok {
@@ -421,8 +427,10 @@ func (h *Hist) AfterRotations() {
 		h.RotSeen++
 	}
 	h.Rots = nil
-	n.Check(h.Rule+".model", "after-rotations")
-	h.CheckStatsFile()
+	if check {
+		n.Check(h.Rule+".model", "after-rotations")
+		h.CheckStatsFile()
+	}
 }
 
 func pre2val(r glow.EquipmentReport) uint64 { return r.PowerOutput }
